@@ -180,3 +180,59 @@ def check_history(ck, rule, inst, site, make, f, stubs=None, max_paths=48, stick
             if not shared and len(b1) == len(a1):
                 ck.check(all(x == y for x, y in zip(a1, b1)), rule, "%s:the first result is left alone by the second call [%s]" % (inst, tag), site,
                          "the value handed out by the first call was modified by the second call", key="%s|%s|clobbered" % (rule, inst))
+
+
+def check_after(ck, rule, inst, site, make, pre, f, stubs=None, max_paths=48, sticky=True):
+    """Order independence: f(ctx) evaluated after other public calls pre(ctx) on the same objects must give what f(ctx)
+    gives on its own.  Two interpretations (with / without the prefix) are compared path by path (same decisions)."""
+    prog = ck.program
+
+    def run(with_pre):
+        def th(it):
+            ctx = make(it)
+            if with_pre:
+                pre(it, ctx)
+            k0 = len(it.taken)
+            r = f(it, ctx)
+            return {"t": snapshot_terms(it, r), "shape": getattr(r, "shape", None), "decisions": len(it.taken) - k0, "conds": list(it.conds)}
+
+        return [p for p in paths_of(prog, th, max_paths=max_paths, sticky=sticky, stubs=stubs) if p.outcome == "return"]
+
+    with ck.guard(rule, inst, site):
+        alone, after = run(False), run(True)
+        if not alone or not after:
+            ck.undecided(rule, inst, site, "no returning path")
+            return
+        ref = {}
+        for p in alone:
+            key = tuple((c[1], c[2]) for c in p.conds)
+            ref[key] = p.value
+        for p in after:
+            rec = p.value
+            # decisions made inside f alone identify the matching reference path
+            cands = [v for k, v in ref.items() if all(kc in [(c[1], c[2]) for c in p.conds] for kc in k)]
+            name = "%s [%s]" % (inst, ",".join("%s=%s" % (c[1][:22], c[2]) for c in p.conds[:3]))
+            if not cands:
+                ck.undecided(rule, name, site, "no matching path of the call on its own")
+                continue
+            a2 = _flat(rec["t"])
+            hit = False
+            for v in cands:
+                a1 = _flat(v["t"])
+                if len(a1) == len(a2) and all(x is not None and y is not None and _same(y, x) for x, y in zip(a1, a2)):
+                    hit = True
+                    break
+            if hit:
+                ck.ok(rule, name, site)
+                continue
+            v = cands[0]
+            extra = rec["decisions"] - v["decisions"]
+            sa_, sb_ = rec["shape"], v["shape"]
+            shape_differs = sa_ is not None and sb_ is not None and (len(sa_) != len(sb_) or any(x != y and "?" not in (str(x), str(y)) for x, y in zip(sa_, sb_)))
+            if extra <= 0 and all(x is not None for x in a2):
+                ck.violation(rule, name, site, "after the preceding calls the result is %s; on its own the same call gives %s: state carried over from earlier calls changes the result"
+                             % (str(a2[0])[:140], str(_flat(v["t"])[0])[:140]), key="%s|%s|order" % (rule, inst))
+            elif shape_differs:
+                ck.violation(rule, name, site, "after the preceding calls the result has shape %s instead of %s" % (sa_, sb_), key="%s|%s|order-shape" % (rule, inst))
+            else:
+                ck.undecided(rule, name, site, "after the preceding calls the result may differ (%s); this depends on conditions the analyser cannot evaluate" % (str(a2[0])[:120],))
